@@ -144,7 +144,7 @@ func VerifH_C04_notify() {
 	if vapi.Bool("prevalidated") {
 		var blocks []types.Block
 		var states []consensus.State
-		ps, _ := c.m.State(absID(parent))
+		ps := c.appliedState(parent)
 		for i := 0; i < n; i++ {
 			b := c.newBlock(parent, true)
 			b.V2 = &types.V2BlockData{Height: ps.Index.Height + 1}
